@@ -1,6 +1,7 @@
 """C06 — type-level union, intersection, difference, complement are exact set operations."""
 import collections
 import itertools
+import json
 import random
 from lib import common, bdds
 
@@ -211,6 +212,20 @@ def check(run):
         "failures": dict(collections.Counter(k for k, _ in fails))}
     cov["samples"] = [{"op": meta[i][0], "a": bdds.bdd_show(meta[i][1]), "b": bdds.bdd_show(meta[i][2]) if meta[i][2] is not None else None,
                        "impl": impl_text(res[i], meta[i][0] == "to_dnf")} for i in (0, len(meta) // 2)]
+    # listed findings: laws that hold for every reading of the operands as sets, replayed on the engine
+    for kf in common.load_known("C06"):
+        w = json.loads(kf["witness"])
+        if w.get("law") == "difference-is-disjoint-from-the-subtrahend":
+            d = common.run_engine([{"id": 0, "op": "st_diff", "a": w["a"], "b": w["b"]}])[0]
+            i = common.run_engine([{"id": 0, "op": "st_intersect", "a": d["ok"], "b": w["b"]}])[0] if "ok" in d else {}
+            failing = "ok" in i and not (i["ok"].get("all") == 0 and not i["ok"].get("data"))
+        else:
+            failing = False
+        if kf.get("kind") == "known" and failing:
+            run.known("class=%s %s" % (kf["class"], kf["what"]))
+            cov["known_findings_reproduced"].append(kf["class"])
+        if kf.get("kind") == "fixed" and failing:
+            fails.append(("fixed-finding-returned:" + kf["class"], {"witness": kf["witness"]}))
     cov["trusted_base"] = [
         "Coq 8.16.1 kernel, vm_compute; no axioms",
         "Model/Bdd.v, Model/SemType.v: transliterations of bdd.rs / dnf.rs / subtype.rs / semtype.rs tied by syntactic comparison of "
